@@ -80,6 +80,9 @@ pub struct FIter<E> {
     expected: usize,
 }
 impl<E> FIter<E> {
+    pub fn new(items: Vec<E>, report: Report, expected: usize) -> FInto<E> {
+        FInto(FIter { items: items.into(), report, expected })
+    }
     fn reported(&self) -> usize {
         match self.report {
             Report::True => self.items.len(),
